@@ -48,8 +48,15 @@ class CombineOutputs(Operation):
             ):
                 continue
             copy_into = self._output_path / dep_id.name
+            # A relative link is resolved from the directory that physically
+            # holds it. That directory (or the dependency's) may be reached
+            # through a symbolic link (e.g., a package's outputs kept on other
+            # storage), so the relative path is computed between the real
+            # locations.
             relative_to_target = pathlib.Path(
-                os.path.relpath(dep_dir, copy_into.parent)
+                os.path.relpath(
+                    os.path.realpath(dep_dir), os.path.realpath(copy_into.parent)
+                )
             )
             if copy_into.exists():
                 if copy_into.is_symlink():
